@@ -191,26 +191,45 @@ func (g *gen) buildParams(api apiInfo, rng *rand.Rand) any {
 			}
 			p = nested(keys, blkPH)
 		}
-	case spectypes.PARSER_FUNC_PARSE_DICTIONARY:
+	case spectypes.PARSER_FUNC_PARSE_DICTIONARY, spectypes.PARSER_FUNC_PARSE_DICTIONARY_OR_ORDERED:
+		if len(args) >= 2 && rng.Intn(4) == 0 {
+			// positional params written as "name<sep>value" strings, well-formed and not: the bare property name, an
+			// empty value, an empty name, a second separator, another name
+			name, sep := args[0], args[1]
+			forms := []string{name + sep + blkPH, name, name + sep, sep + blkPH, name + sep + blkPH + sep + "x", "x" + name + sep + blkPH, name + name}
+			n := 1 + rng.Intn(3)
+			a := make([]any, n)
+			for i := range a {
+				if rng.Intn(3) == 0 {
+					a[i] = fill()
+				} else {
+					a[i] = forms[rng.Intn(len(forms))]
+				}
+			}
+			p = a
+			break
+		}
+		if api.BP.ParserFunc == spectypes.PARSER_FUNC_PARSE_DICTIONARY_OR_ORDERED {
+			k := 0
+			if len(args) >= 3 {
+				k, _ = strconv.Atoi(args[2])
+			}
+			switch rng.Intn(3) {
+			case 0:
+				p = map[string]any{first(args): blkPH}
+			case 1:
+				a := arrTo(k)
+				a[k] = blkPH
+				p = a
+			default:
+				p = []any{map[string]any{first(args): blkPH}}
+			}
+			break
+		}
 		if len(args) >= 2 && rng.Intn(2) == 0 {
 			p = []any{fill(), args[0] + args[1] + blkPH}
 		} else {
 			p = map[string]any{first(args): blkPH}
-		}
-	case spectypes.PARSER_FUNC_PARSE_DICTIONARY_OR_ORDERED:
-		k := 0
-		if len(args) >= 3 {
-			k, _ = strconv.Atoi(args[2])
-		}
-		switch rng.Intn(3) {
-		case 0:
-			p = map[string]any{first(args): blkPH}
-		case 1:
-			a := arrTo(k)
-			a[k] = blkPH
-			p = a
-		default:
-			p = []any{map[string]any{first(args): blkPH}}
 		}
 	default:
 		switch rng.Intn(4) {
@@ -587,8 +606,12 @@ func (g *gen) make(seed int64, i int) input {
 				func(s string) string { return s + "?" },
 				func(s string) string { return s + "?&&==&a" },
 				func(s string) string { return s + "?height=1&height=2&height=latest" },
-				func(s string) string { return s + "?height=" + url.QueryEscape(bareTok(numberForms[rng.Intn(len(numberForms))])) },
-				func(s string) string { return s + "?block=" + url.QueryEscape(bareTok(oddTags[rng.Intn(len(oddTags))])) },
+				func(s string) string {
+					return s + "?height=" + url.QueryEscape(bareTok(numberForms[rng.Intn(len(numberForms))]))
+				},
+				func(s string) string {
+					return s + "?block=" + url.QueryEscape(bareTok(oddTags[rng.Intn(len(oddTags))]))
+				},
 				func(s string) string { return s + "?" + strings.Repeat("k=v&", 3000) },
 				func(s string) string { return s + "/" + strings.Repeat("A", 20000) },
 				func(s string) string { return strings.ToUpper(s) },
